@@ -328,6 +328,11 @@ func (g *pgen) stmt(e *genv, depth int) []zr.Stmt {
 			switch r.Intn(3) {
 			case 1:
 				v := g.fresh("项")
+				if on, isName := over.(zr.Name); isName && r.Intn(3) == 0 {
+					// the loop variable takes the name of the collection in its own header
+					v = on.N
+					g.feat("iter-shadows-header")
+				}
 				names = []string{v}
 				ce.vars = append(ce.vars, vinfo{v, "num", true})
 			case 2:
